@@ -359,6 +359,33 @@ func (s *Sorts) RangeFact(t types.Type, v string, depth int) string {
 	return "true"
 }
 
+// AllocFact states that every reference held in a value of type t (pointers, slice bases,
+// interface payloads, also inside struct fields) lies below the allocation watermark.
+func (s *Sorts) AllocFact(t types.Type, v, alloc string, depth int) string {
+	switch u := t.Underlying().(type) {
+	case *types.Pointer, *types.Map:
+		return fmt.Sprintf("(< %s %s)", v, alloc)
+	case *types.Slice:
+		return fmt.Sprintf("(< (sl.base %s) %s)", v, alloc)
+	case *types.Interface:
+		return fmt.Sprintf("(< (if.val %s) %s)", v, alloc)
+	case *types.Struct:
+		if depth <= 0 {
+			return "true"
+		}
+		ss := s.structSortOf(t, u)
+		var parts []string
+		for i, f := range ss.fields {
+			p := s.AllocFact(ss.ftypes[i], "("+f+" "+v+")", alloc, depth-1)
+			if p != "true" {
+				parts = append(parts, p)
+			}
+		}
+		return and(parts...)
+	}
+	return "true"
+}
+
 // sortedKeys helper
 func sortedKeys[V any](m map[string]V) []string {
 	ks := make([]string, 0, len(m))
